@@ -296,6 +296,7 @@ func (i *Interpreter) Define(clauseText string) error {
 	// like supporting removal of a particular clause. This would
 	// require retracting the associated facts from the store, though,
 	// which is currently not supported.
+	previous := i.buffer
 	buffer := i.buffer + clauseText
 	unit, err := parse.Unit(strings.NewReader(buffer))
 	if err != nil {
@@ -304,6 +305,7 @@ func (i *Interpreter) Define(clauseText string) error {
 	i.resetInteractiveDefs(buffer)
 	programInfo, err := analysis.AnalyzeOneUnit(unit, copyDecls(i.knownPredicates))
 	if err != nil {
+		i.restoreInteractiveDefs(previous)
 		return fmt.Errorf("analysis failed: %v", err)
 	}
 	i.pushSourceFragment(interactivePath, []parse.SourceUnit{unit}, programInfo)
@@ -311,6 +313,7 @@ func (i *Interpreter) Define(clauseText string) error {
 	// let the user control when to evaluate rules.
 	err = i.evalProgram(programInfo)
 	if err != nil {
+		i.restoreInteractiveDefs(previous)
 		return fmt.Errorf("evaluation failed: %v", err)
 	}
 	var preds []ast.PredicateSym
@@ -480,6 +483,18 @@ func (i *Interpreter) popSourceFragment() *sourceFragment {
 func (i *Interpreter) hasInteractiveDefs() bool {
 	l := len(i.src)
 	return l > 0 && i.src[l-1] == interactivePath
+}
+
+// restoreInteractiveDefs re-establishes the interactive definitions in previous
+// after a definition was rejected, so that a rejected definition changes nothing.
+func (i *Interpreter) restoreInteractiveDefs(previous string) {
+	i.resetInteractiveDefs("")
+	if previous == "" {
+		return
+	}
+	if err := i.Define(previous); err != nil {
+		i.buffer = previous
+	}
 }
 
 func (i *Interpreter) resetInteractiveDefs(buffer string) {
